@@ -1813,7 +1813,7 @@ class TrajectoryStore:
         match (has_sp, has_tm):
             case (False, False):
                 # float, np.ndarray
-                var[index] = val
+                var[index] = _contiguous(val)
             case (False, True):
                 # ThrustModeValues
                 for ti, tm in enumerate(ThrustMode):
@@ -1822,7 +1822,7 @@ class TrajectoryStore:
                 # SpeciesValues[float], SpeciesValues[np.ndarray]
                 for si, sp in enumerate(species):
                     if sp in val:
-                        var[index, si] = val[sp]
+                        var[index, si] = _contiguous(val[sp])
             case (True, True):
                 # SpeciesValues[ThrustModeValues]
                 for si, sp in enumerate(species):
@@ -2139,6 +2139,14 @@ class TrajectoryStore:
             assert isinstance(f[0], PathType)
             check_paths.append(f[0])
         return check_paths
+
+
+def _contiguous(value: Any) -> Any:
+    """netCDF4 writes a variable-length item from the underlying buffer of the
+    array and ignores its strides: hand it contiguous arrays (a view such as
+    `table[:, k]` or `a[::2]` would otherwise be stored as the first items of
+    the buffer it looks into)."""
+    return np.ascontiguousarray(value) if isinstance(value, np.ndarray) else value
 
 
 def _create_dimensions(
